@@ -853,7 +853,7 @@ func ruleFieldFilters(w *World, r *Report, rule string) {
 			if cal == nil {
 				continue
 			}
-			if (cal.Name() == "Set" || cal.Name() == "resolveFieldDependency") && c.Pos() < guardEnd {
+			if (cal.Name() == "Set" || w.IsFn(cal, w.Refl, "(*ParamObjectBuilder).resolveFieldDependency")) && c.Pos() < guardEnd {
 				bad = cal.Name() + " is reached before all skip guards"
 			}
 		}
@@ -1014,12 +1014,12 @@ func ruleInitializersOnce(w *World, r *Report, rule string) {
 
 // ruleArgsPerInvocation: R03.3b.
 func ruleArgsPerInvocation(w *World, r *Report, rule string) {
-	for _, s := range []struct{ fn, callee string }{{"(*ConstructorInvoker).buildArguments", "resolveParameter"}, {"(*ParamObjectBuilder).BuildParamObject", "resolveFieldDependency"}} {
+	for _, s := range []struct{ fn, callee string }{{"(*ConstructorInvoker).buildArguments", "(*ConstructorInvoker).resolveParameter"}, {"(*ParamObjectBuilder).BuildParamObject", "(*ParamObjectBuilder).resolveFieldDependency"}} {
 		top := w.MustFn(w.Refl, s.fn)
 		fi := top
 		for _, f := range w.Within(top, 2) {
 			for _, c := range callsIn(f.Decl.Body, true) {
-				if cal := callee(f.Pkg.TypesInfo, c); cal != nil && cal.Name() == s.callee {
+				if cal := callee(f.Pkg.TypesInfo, c); w.IsFn(cal, w.Refl, s.callee) {
 					fi = f
 				}
 			}
@@ -1037,7 +1037,7 @@ func ruleArgsPerInvocation(w *World, r *Report, rule string) {
 			if body != nil {
 				n := 0
 				for _, c := range callsIn(body, false) {
-					if cal := callee(info, c); cal != nil && cal.Name() == s.callee {
+					if cal := callee(info, c); w.IsFn(cal, w.Refl, s.callee) {
 						n++
 					}
 				}
